@@ -36,6 +36,9 @@ func (w *World) refPreflight(cluster string, owner store.Obj, so SpecObject, nam
 	if b, _ := store.Get(so.Obj, "spec", "simInvalid").(bool); b {
 		return "rejected by dry run"
 	}
+	if w.Denied[cluster+"|"+w.normKey(cluster, so.Key).String()] {
+		return "rejected by dry run (admission policy in force)"
+	}
 	if ki.Namespaced && objNS == "" && ownerNS == "" {
 		return "rejected by dry run (no namespace)"
 	}
@@ -77,6 +80,11 @@ func (m *MonC11) OnPassEnd(w *World, p *Pass) {
 	owner := ownerOfPass(p)
 	if owner == nil || isTeardownOwner(owner) || isSpecPaused(owner) {
 		return
+	}
+	for _, at := range w.DenyFlips {
+		if at >= p.StartSeq && at <= p.EndSeq {
+			return // admission changed its mind while the pass was under way: neither answer binds the pass
+		}
 	}
 	if isPhaseKind(p.Ctrl) {
 		class := store.Labels(owner)["package-operator.run/phase-class"]
